@@ -1,4 +1,5 @@
 import BA.Model.Cron
+import BA.Model.EarlyTerm
 import Driver.Util
 namespace Driver.Cron
 open BA.Cron Driver
@@ -17,6 +18,25 @@ def handle (s : Unit) (line : String) : Unit × String :=
       let m := advance { pps := pps, cur := cur, cronActive := true } e
       (s, s!"{m.pps} {m.cur} {lastOf m.pps (e + 1)}")
     | _, _, _ => (s, "bad-op")
+  -- early-termination work: state in (q, events), state out
+  | ["et_terminate", q, evs, e, n, cap] =>
+    match parseNat? q, parseList? parseInt? evs, parseInt? e, parseNat? n, parseNat? cap with
+    | some q, some evs, some e, some n, some cap =>
+      let t := BA.EarlyTerm.terminate { q := q, events := evs } e n cap
+      (s, s!"{t.q} {showList (t.events.map toString)}")
+    | _, _, _, _, _ => (s, "bad-op")
+  | ["et_detect", q, evs, e, n, cap] =>
+    match parseNat? q, parseList? parseInt? evs, parseInt? e, parseNat? n, parseNat? cap with
+    | some q, some evs, some e, some n, some cap =>
+      let t := BA.EarlyTerm.detect { q := q, events := evs } e n cap
+      (s, s!"{t.q} {showList (t.events.map toString)}")
+    | _, _, _, _, _ => (s, "bad-op")
+  | ["et_tick", q, evs, e, cap] =>
+    match parseNat? q, parseList? parseInt? evs, parseInt? e, parseNat? cap with
+    | some q, some evs, some e, some cap =>
+      let t := BA.EarlyTerm.tick { q := q, events := evs } e cap
+      (s, s!"{t.q} {showList (t.events.map toString)}")
+    | _, _, _, _ => (s, "bad-op")
   | _ => (s, "bad-op")
 
 end Driver.Cron
